@@ -95,8 +95,8 @@ func c09Tail(t vpT, d *DiskBucketStorage, si int) (uint32, int64) {
 	select {
 	case r := <-ch:
 		return r.tm, r.id
-	case <-time.After(60 * time.Second):
-		t.Fatalf("VP-INCONCLUSIVE ReadNextTailBucket did not return within 60 s (endless loop in the tail reader?)")
+	case <-time.After(20 * time.Second):
+		t.Fatalf("VP-INCONCLUSIVE ReadNextTailBucket did not return within 20 s (endless loop in the tail reader?)")
 		return 0, 0
 	}
 }
